@@ -235,6 +235,12 @@ def r15_2(cx):
             ss = fn.succs()[b]
             if len(ss) == 2 and any(fn.path(s_, fn.returns()) is None for s_ in ss) and not any((b, s_) in m.restore_edges(fn) for s_ in ss):
                 continue
+            # a branch that no mutation of the counter / container can reach (an early `return 0` before anything
+            # happened) is not a trigger: there is nothing to restore yet on either side
+            dirty = m.dirty_events(fn, cx)
+            if not any(k[0] == b for k in m.restore_edges(fn)) and not any(pos.idx < 0 for pos, _d in dirty) and \
+                    not any(pos.bb == b or b in fn.reachable(pos.bb) for pos, _d in dirty if pos.idx >= 0):
+                continue
             n += 1
             cx.count_sites()
             edges = [k for k in m.restore_edges(fn) if k[0] == b]
